@@ -248,7 +248,7 @@ theorem kids_fired (kids : Entry → List (Rat × Nat)) (T : Rat)
             have := hi.ctr e' (by simp [hq])
             simp only at h3
             omega
-          · exact List.Sublist.cons₂ _ (List.singleton_sublist.mpr hf)
+          · exact List.Sublist.cons_cons _ (List.singleton_sublist.mpr hf)
         · obtain ⟨f, hf, h1, h2, h3, h4⟩ := IH e' he' c hc hcT
           exact ⟨f, Or.inr hf, h1, h2, h3, List.Sublist.cons _ h4⟩
       · rw [loop_stop (Or.inr ⟨e, rest, hq, ht⟩)]; simp [advance_fired]
@@ -810,5 +810,335 @@ example : (fired (runOps demoKids 20 hinit demoOps).trace).map (fun e => (e.time
     (runOps demoKids 20 hinit demoOps).hz = 3 ∧
     (runOps demoKids 20 hinit demoOps).s.queue.map (fun e => (e.time, e.ctr, e.id)) = [(3, 6, 7)] := by
   decide +kernel
+
+/-! ### Round 4 — fuel independence -/
+
+/-- **Fuel independence.**  Once the fuel suffices (status ok), any larger fuel gives the very same
+run: status, final state and trace.  So every theorem with the hypothesis `status = ok` is a
+statement about *the* result of the call, not about a fuel-indexed family. -/
+theorem loop_fuel_mono (kids : Entry → List (Rat × Nat)) (T : Rat) (f : Nat) (s : Sys)
+    (hok : (loop kids T f s).status = .ok) : ∀ k, loop kids T (f + k) s = loop kids T f s :=
+  loop_fuel_mono' kids T f s hok
+
+/-- the same for `evolve_until` (a refused call does not look at the fuel at all) -/
+theorem evolveUntil_fuel_mono (kids : Entry → List (Rat × Nat)) (f : Nat) (s : Sys) (T : Rat)
+    (hf : (evolveUntil kids f s T).status ≠ .outOfFuel) :
+    ∀ k, evolveUntil kids (f + k) s T = evolveUntil kids f s T :=
+  evolveUntil_fuel_mono' kids f s T hf
+
+/-- **Fuel independence for histories**: if every `evolve_until` of a history returns with fuel `f`,
+then with any larger fuel the history is the same, step for step, and still every call returns. -/
+theorem runOps_fuel_mono (kids : Entry → List (Rat × Nat)) (f : Nat) (ops : List Op)
+    (hf : NoFuelOut kids f ops) :
+    ∀ k, runOps kids (f + k) hinit ops = runOps kids f hinit ops ∧ NoFuelOut kids (f + k) ops :=
+  runOps_fuel_mono' kids f ops hf
+
+/-- … hence any two sufficient fuels give the same history (the harness's `FUEL = 100000` is as good
+as any other sufficient value). -/
+theorem runOps_fuel_irrelevant (kids : Entry → List (Rat × Nat)) (f g : Nat) (ops : List Op)
+    (hf : NoFuelOut kids f ops) (hg : NoFuelOut kids g ops) :
+    runOps kids f hinit ops = runOps kids g hinit ops := by
+  rcases Nat.le_total f g with h | h
+  · obtain ⟨k, rfl⟩ := Nat.exists_eq_add_of_le h
+    exact ((runOps_fuel_mono kids f ops hf k).1).symm
+  · obtain ⟨k, rfl⟩ := Nat.exists_eq_add_of_le h
+    exact (runOps_fuel_mono kids g ops hg k).1
+
+/-! ### Round 4 — exactly once for *every* history (adds in the past, children in the past) -/
+
+/-- **Every** history of interface calls leaves a state with the queue invariant `InvQ` — no
+assumption on the times given to `add_callback`, on what callbacks schedule, or on the fuel. -/
+theorem history_invQ (kids : Entry → List (Rat × Nat)) (fuel : Nat) (ops : List Op) :
+    InvQ (runOps kids fuel hinit ops).s :=
+  history_invQ' kids fuel ops
+
+/-- **Per-call exactly once after any history.**  Whatever happened before (callbacks added for
+instants already passed, callbacks scheduling into the past, refused calls), an `evolve_until(T)`
+that returns executes each entry that is queued or gets created during the call and is due before
+`T` exactly once, and leaves exactly the others queued. -/
+theorem history_call_exactly_once (kids : Entry → List (Rat × Nat)) (fuel : Nat) (ops : List Op)
+    (T : Rat) (hok : (loop kids T fuel (runOps kids fuel hinit ops).s).status = .ok) :
+    let s := (runOps kids fuel hinit ops).s
+    ∀ c ∈ s.queue ++ spawned kids s.ctr (fired (loop kids T fuel s).trace),
+      (c.time < T → (fired (loop kids T fuel s).trace).count c = 1 ∧ c ∉ (loop kids T fuel s).s.queue) ∧
+      (T ≤ c.time → c ∈ (loop kids T fuel s).s.queue ∧ (fired (loop kids T fuel s).trace).count c = 0) :=
+  exactly_once_count kids T fuel _ (history_invQ kids fuel ops) hok
+
+/-- **Whole-history exactly once without `AddsFrom`/`WF`.**  After any history that ends with an
+accepted `evolve_until(T)` which returns: of all entries ever created, each one due before `T` has
+been executed exactly once over all evolutions and is not queued; whatever is queued is due at or
+after `T` and has never run; and every created entry is either executed once or queued once
+(never both, never neither). -/
+theorem history_evolve_exactly_once (kids : Entry → List (Rat × Nat)) (fuel : Nat) (ops : List Op)
+    (T : Rat) (hok : (evolveUntil kids fuel (runOps kids fuel hinit ops).s T).status = .ok) :
+    let H := runOps kids fuel hinit (ops ++ [Op.evolve T])
+    ∀ c ∈ H.created,
+      (c.time < T → (fired H.trace).count c = 1 ∧ c ∉ H.s.queue) ∧
+      (c ∈ H.s.queue → T ≤ c.time ∧ (fired H.trace).count c = 0) ∧
+      (fired H.trace).count c + H.s.queue.count c = 1 := by
+  intro H c hc
+  have hcons : HCons H := hcons_run kids fuel _
+  have hT : ¬ T < (runOps kids fuel hinit ops).s.t := by
+    intro h
+    rw [(backwards_refused kids fuel _ T h).1] at hok
+    cases hok
+  have hok' : (loop kids T fuel (runOps kids fuel hinit ops).s).status = .ok := by
+    simpa only [evolveUntil, hT, if_false] using hok
+  have hq : ∀ q ∈ H.s.queue, T ≤ q.time := by
+    have := loop_queue_ge kids T fuel _ (history_invQ kids fuel ops) hok'
+    simpa only [H, runOps_snoc, stepOp_forward kids fuel _ T hT] using this
+  have hmem := hcons.perm.mem_iff.mpr hc
+  have hsum : (fired H.trace).count c + H.s.queue.count c = 1 := by
+    rw [← List.count_append]
+    rw [hcons.nodup.count, if_pos hmem]
+  refine ⟨?_, ?_, hsum⟩
+  · intro hlt
+    have hnq : c ∉ H.s.queue := fun h => absurd (hq c h) (not_le.mpr hlt)
+    have := List.count_eq_zero.mpr hnq
+    exact ⟨by omega, hnq⟩
+  · intro hcq
+    have := List.count_pos_iff.mpr hcq
+    exact ⟨hq c hcq, by omega⟩
+
+/-! ### Round 4 — divergence: `status = ok` is essential, and so is `WF` -/
+
+/-- **A zero-delay self-re-insertion never returns**: with the callback behaviour `selfNow`
+("schedule yourself again for this very instant") a single callback due before the horizon
+exhausts *every* fuel, executing exactly `fuel` callbacks — the model's account of the real loop
+spinning forever (replayed on the real code with a callback that raises after N executions). -/
+theorem diverges_zero_delay_reinsertion :
+    ∀ fuel, (loop selfNow 2 fuel (addCallback init 1 0)).status = .outOfFuel ∧
+      (fired (loop selfNow 2 fuel (addCallback init 1 0)).trace).length = fuel :=
+  fun fuel => selfNow_diverges 2 fuel _ ⟨1, 0, 0⟩ (by simp [addCallback, init, insert]) (by norm_num)
+
+/-- the same from any state whose queue holds one callback due before the horizon -/
+theorem diverges_zero_delay_reinsertion_general (T : Rat) (fuel : Nat) (s : Sys) (e : Entry)
+    (hq : s.queue = [e]) (ht : e.time < T) : (loop selfNow T fuel s).status = .outOfFuel :=
+  (selfNow_diverges T fuel s e hq ht).1
+
+/-- … although `selfNow` and the start state satisfy every other hypothesis used in this file
+(`WF`, `Inv`): the hypothesis "the call returns" of the `hok` theorems cannot be dropped, and no
+fuel makes `NoFuelOut` true for the two-call history `add_callback(1, f); evolve_until(2)`. -/
+theorem selfNow_meets_other_hypotheses :
+    WF selfNow ∧ Inv (addCallback init 1 0) ∧
+      ¬ ∃ fuel, NoFuelOut selfNow fuel [Op.add 1 0, Op.evolve 2] := by
+  refine ⟨?_, inv_addCallback inv_init 1 0 (by simp [init]), ?_⟩
+  · intro e c hc; simp [selfNow] at hc; rw [hc]
+  · rintro ⟨fuel, h⟩
+    have := h [Op.add 1 0] 2 [] rfl
+    apply this
+    have hs : (runOps selfNow fuel hinit [Op.add 1 0]).s = addCallback init 1 0 := rfl
+    rw [hs]
+    have hT : ¬ (2 : Rat) < (addCallback init 1 0).t := by simp [addCallback, init]
+    simp only [evolveUntil, hT, if_false]
+    exact (diverges_zero_delay_reinsertion fuel).1
+
+/-- callback 0 schedules callback 1 half a time unit *before* its own time -/
+def pastKid : Entry → List (Rat × Nat) := fun e => if e.id = 0 then [(e.time - 1/2, 1)] else []
+
+/-- **`WF` is necessary** for the order clause and for the clock clause: with `pastKid` (all other
+hypotheses hold, the call returns) the child runs after its parent although it is due earlier, so
+the executed list is not in time order, and it runs with the clock *ahead* of its time.  (Exactly
+once still holds: `kids_fired`, `exactly_once_count` do not need `WF`.) -/
+theorem order_needs_wf :
+    Inv (addCallback init 1 0) ∧ ¬ WF pastKid ∧
+    (loop pastKid 2 5 (addCallback init 1 0)).status = .ok ∧
+    (fired (loop pastKid 2 5 (addCallback init 1 0)).trace).map (fun e => (e.time, e.id)) =
+      [(1, 0), (1/2, 1)] ∧
+    ¬ Sorted (fired (loop pastKid 2 5 (addCallback init 1 0)).trace) ∧
+    Event.fire ⟨1/2, 1, 1⟩ 1 ∈ (loop pastKid 2 5 (addCallback init 1 0)).trace := by
+  refine ⟨inv_addCallback inv_init 1 0 (by simp [init]), ?_, ?_⟩
+  · intro h
+    have := h ⟨1, 0, 0⟩ (1/2, 1) (by decide +kernel)
+    norm_num at this
+  · unfold Sorted
+    decide +kernel
+
+/-! ### Round 4 — `NoFuelOut` discharged: histories of progressing callbacks terminate -/
+
+/-- **Termination of whole histories.**  If every callback schedules its children at least `δ > 0`
+later than itself and at most `B` of them, then for every history some fuel makes every
+`evolve_until` return (`NoFuelOut`, the hypothesis of `history_inv` / `history_exactly_once`), and
+from that fuel on the history does not depend on the fuel. -/
+theorem history_terminates_if_progress {kids : Entry → List (Rat × Nat)} {δ : Rat} {B : Nat}
+    (hδ : 0 < δ) (hprog : ∀ e, ∀ c ∈ kids e, e.time + δ ≤ c.1) (hB : ∀ e, (kids e).length ≤ B)
+    (ops : List Op) :
+    ∃ fuel, NoFuelOut kids fuel ops ∧
+      ∀ k, runOps kids (fuel + k) hinit ops = runOps kids fuel hinit ops ∧
+        NoFuelOut kids (fuel + k) ops := by
+  obtain ⟨fuel, hf⟩ := exists_fuel_of_each kids (fun s T =>
+    ⟨_, terminates_if_progress hδ (fun e _ => hprog e) (fun e _ => hB e) s _ (Nat.lt_succ_self _)⟩) ops
+  exact ⟨fuel, hf, runOps_fuel_mono kids fuel ops hf⟩
+
+/-- the same from any criterion that makes each single evolution return (e.g. a weight,
+`terminates_of_weight`, which covers zero-delay scheduling along a DAG of callback ids) -/
+theorem history_terminates_of_each (kids : Entry → List (Rat × Nat))
+    (hterm : ∀ (s : Sys) (T : Rat), ∃ f, (loop kids T f s).status = .ok) (ops : List Op) :
+    ∃ fuel, NoFuelOut kids fuel ops :=
+  exists_fuel_of_each kids hterm ops
+
+/-- progress implies `WF`, so under progress and `AddsFrom` the history theorem needs no fuel
+hypothesis: some fuel yields `HInv`. -/
+theorem history_inv_of_progress {kids : Entry → List (Rat × Nat)} {δ : Rat} {B : Nat}
+    (hδ : 0 < δ) (hprog : ∀ e, ∀ c ∈ kids e, e.time + δ ≤ c.1) (hB : ∀ e, (kids e).length ≤ B)
+    (ops : List Op) (ha : ∀ fuel, AddsFrom (·.hz) kids fuel ops) :
+    ∃ fuel, HInv (runOps kids fuel hinit ops) := by
+  obtain ⟨fuel, hf, -⟩ := history_terminates_if_progress hδ hprog hB ops
+  have hk : WF kids := fun e c hc => by have := hprog e c hc; linarith
+  exact ⟨fuel, history_inv hk fuel ops (ha fuel) hf⟩
+
+/-- `demoKids` progresses (δ = 1, B = 1) at every callback, so `history_terminates_if_progress`
+applies to every history of it -/
+example (ops : List Op) : ∃ fuel, NoFuelOut demoKids fuel ops :=
+  (history_terminates_if_progress (δ := 1) (B := 1) (by norm_num)
+    (by intro e c hc; unfold demoKids at hc; split at hc <;> simp at hc; rw [hc])
+    (by intro e; unfold demoKids; split <;> simp) ops).imp fun _ h => h.1
+
+/-! ### Round 4 — the final clock, exactly -/
+
+/-- **The final clock, exactly** (no hypothesis beyond "the call returns").  Let `c` be the clock
+shown to the last callback of the run (the initial clock if none ran).  The evolution ends with
+the clock at `T` when the remaining stretch `T - c` exceeds the threshold, and at `c` otherwise
+(the stretch is coalesced away: "the clock ends at T" holds only up to `eps`). -/
+theorem final_clock_exact (kids : Entry → List (Rat × Nat)) (T : Rat) (fuel : Nat) (s : Sys)
+    (hok : (loop kids T fuel s).status = .ok) :
+    (loop kids T fuel s).s.t =
+      if eps < T - lastFireClock s.t (loop kids T fuel s).trace then T
+      else lastFireClock s.t (loop kids T fuel s).trace :=
+  loop_final_clock kids T fuel s hok
+
+/-- the clock ends exactly at `T` iff the last stretch is longer than the threshold or empty -/
+theorem final_clock_eq_target_iff (kids : Entry → List (Rat × Nat)) (T : Rat) (fuel : Nat) (s : Sys)
+    (hok : (loop kids T fuel s).status = .ok) :
+    (loop kids T fuel s).s.t = T ↔
+      (eps < T - lastFireClock s.t (loop kids T fuel s).trace ∨
+        lastFireClock s.t (loop kids T fuel s).trace = T) := by
+  rw [loop_final_clock kids T fuel s hok]
+  by_cases h : eps < T - lastFireClock s.t (loop kids T fuel s).trace
+  · simp [h]
+  · simp [h]
+
+/-- `eps < T - t_last → r.s.t = T` -/
+theorem final_clock_eq_target (kids : Entry → List (Rat × Nat)) (T : Rat) (fuel : Nat) (s : Sys)
+    (hok : (loop kids T fuel s).status = .ok)
+    (h : eps < T - lastFireClock s.t (loop kids T fuel s).trace) : (loop kids T fuel s).s.t = T :=
+  (final_clock_eq_target_iff kids T fuel s hok).mpr (Or.inl h)
+
+/-- with nothing queued, a target more than `eps` ahead is reached exactly -/
+theorem empty_queue_exact (kids : Entry → List (Rat × Nat)) (fuel : Nat) (s : Sys) (T : Rat)
+    (hq : s.queue = []) (hT : eps < T - s.t) : (evolveUntil kids (fuel + 1) s T).s.t = T := by
+  have : ¬ T < s.t := by
+    have := eps_pos
+    intro h; linarith
+  simp only [evolveUntil, this, if_false, loop_stop (Or.inl hq)]
+  unfold advance
+  rw [if_pos hT]; simp
+
+/-- **The clock can end strictly below the target**: `evolve_until(5·10⁻⁷)` on the fresh system
+returns normally and leaves the clock at `0` (the literal clause "the clock ends at T" is false;
+what holds is `loop_clock_end_any`/`final_clock_exact`). -/
+theorem final_clock_below_target_possible :
+    ∃ T, (evolveUntil noKids 1 init T).status = .ok ∧ (evolveUntil noKids 1 init T).s.t < T :=
+  ⟨1/2000000, by decide +kernel⟩
+
+/-- the clock never passes the target and, when the call returns, ends within `eps` below it — for
+any queue and any callbacks (entries and children may lie in the past); only `s.t ≤ T` is used -/
+theorem loop_clock_end_any (kids : Entry → List (Rat × Nat)) (T : Rat) (fuel : Nat) (s : Sys)
+    (hT : s.t ≤ T) : (loop kids T fuel s).s.t ≤ T ∧
+      ((loop kids T fuel s).status = .ok → T - (loop kids T fuel s).s.t ≤ eps) :=
+  loop_clock_end kids T fuel s hT
+
+/-- **Clock lag, hypothesis-free half**: every executed callback was due strictly before the horizon
+and ran with the clock at most `eps` *behind* its time — for any queue and any callbacks.  (That
+the clock is never *ahead* of the callback's time is the half that needs `Inv` and `WF`:
+`clock_at_callback`, `order_needs_wf`.) -/
+theorem clock_lag_any (kids : Entry → List (Rat × Nat)) (T : Rat) (fuel : Nat) (s : Sys) :
+    ∀ e clk, Event.fire e clk ∈ (loop kids T fuel s).trace → e.time - clk ≤ eps ∧ e.time < T := by
+  induction fuel generalizing s with
+  | zero => simp [loop]
+  | succ fuel ih =>
+    match hq : s.queue with
+    | [] => rw [loop_stop (Or.inl hq)]; intro e' clk h; unfold advance at h; split at h <;> simp at h
+    | e :: rest =>
+      by_cases ht : e.time < T
+      · simp only [loop_cons_trace hq ht]
+        intro e' clk h
+        simp only [List.mem_append, List.mem_cons] at h
+        rcases h with h | h | h
+        · unfold advance at h; split at h <;> simp at h
+        · injection h with e1 e2
+          subst e1 e2
+          refine ⟨?_, ht⟩
+          unfold advance; split
+          · have := eps_pos; simp; linarith
+          · rename_i h'; simp at h' ⊢; exact h'
+        · exact ih _ e' clk h
+      · rw [loop_stop (Or.inr ⟨e, rest, hq, ht⟩)]
+        intro e' clk h; unfold advance at h; split at h <;> simp at h
+
+/-! ### Round 4 — the threshold as a double; the `sorted` flag of the driver -/
+
+/-- **Float bridge for the threshold.**  `eps` is the exact value of the double `1e-6`
+(`4722366482869645 · 2⁻⁷²`, below `10⁻⁶`); no double lies strictly between the two, so for every
+double `dt` the code's test `dt > 1e-6` is the test against the decimal `10⁻⁶` of the property
+text. -/
+theorem eps_decimal_bridge (x : Rat) (hx : IsDouble x) : eps < x ↔ 1 / 1000000 < x := by
+  constructor
+  swap
+  · intro h; exact lt_trans eps_lt_decimal h
+  intro h
+  obtain ⟨m, k, hm, rfl⟩ := hx
+  have h2pos : (0 : Rat) < (2 : Rat) ^ k := zpow_pos (by norm_num) k
+  have hmpos : 0 < m := by
+    by_contra hneg
+    push Not at hneg
+    have : (m : Rat) * (2 : Rat) ^ k ≤ 0 :=
+      mul_nonpos_of_nonpos_of_nonneg (by exact_mod_cast hneg) (le_of_lt h2pos)
+    have := eps_pos
+    linarith
+  obtain ⟨n, rfl⟩ : ∃ n : Nat, m = n := ⟨m.toNat, by omega⟩
+  have hn : n < 2 ^ 53 := by simpa using hm
+  by_cases hk : -72 ≤ k
+  · obtain ⟨j, rfl⟩ : ∃ j : Nat, k = (j : Int) + (-72) := ⟨(k + 72).toNat, by omega⟩
+    rw [zpow_add₀ (by norm_num : (2 : Rat) ≠ 0), zpow_natCast] at h ⊢
+    have hN : ((n : Int) : Rat) * ((2 : Rat) ^ j * (2 : Rat) ^ (-72 : Int)) =
+        ((n * 2 ^ j : Nat) : Rat) / 4722366482869645213696 := by
+      push_cast; norm_num; ring
+    rw [hN] at h ⊢
+    have h1 : (4722366482869645 : Rat) < ((n * 2 ^ j : Nat) : Rat) := by
+      unfold eps at h
+      rw [div_lt_div_iff_of_pos_right (by norm_num)] at h
+      exact h
+    have h2 : 4722366482869645 < n * 2 ^ j := by exact_mod_cast h1
+    have h3 : (4722366482869646 : Rat) ≤ ((n * 2 ^ j : Nat) : Rat) := by exact_mod_cast h2
+    rw [lt_div_iff₀ (by norm_num)]
+    have h4 : (1 : Rat) / 1000000 * 4722366482869645213696 < 4722366482869646 := by norm_num
+    linarith
+  · exfalso
+    push Not at hk
+    have hk' : k ≤ -73 := by omega
+    have h1 : (2 : Rat) ^ k ≤ (2 : Rat) ^ (-73 : Int) := zpow_le_zpow_right₀ (by norm_num) hk'
+    have h2 : ((n : Int) : Rat) < 2 ^ 53 := by exact_mod_cast hn
+    have h3 : ((n : Int) : Rat) * (2 : Rat) ^ k < 2 ^ 53 * (2 : Rat) ^ (-73 : Int) :=
+      lt_of_le_of_lt (mul_le_mul_of_nonneg_left h1 (by positivity))
+        (mul_lt_mul_of_pos_right h2 (by positivity))
+    have h4 : (2 : Rat) ^ 53 * (2 : Rat) ^ (-73 : Int) < eps := by unfold eps; norm_num
+    linarith
+
+/-- the threshold is itself a double (mantissa `4722366482869645 < 2^53`, exponent `-72`) -/
+example : IsDouble eps := ⟨4722366482869645, -72, by norm_num, by unfold eps; norm_num⟩
+
+/-- … so `advance` integrates a double `dt` exactly when `dt` exceeds the decimal `10⁻⁶` -/
+theorem advance_decimal_bridge (s : Sys) (dt : Rat) (hd : IsDouble dt) :
+    advance s dt = if dt > 1 / 1000000 then ({ s with t := s.t + dt }, [Event.integrate dt])
+      else (s, []) := by
+  unfold advance
+  by_cases h : dt > eps
+  · rw [if_pos h, if_pos ((eps_decimal_bridge dt hd).mp h)]
+  · rw [if_neg h, if_neg (fun h' => h ((eps_decimal_bridge dt hd).mpr h'))]
+
+/-- the flag `sorted=` printed by the driver op `hist` (and compared with the real code's executed
+sequence) decides the `Sorted` of `fired_sorted` / `history_inv` -/
+theorem sortedB_spec (l : List Entry) : sortedB l = true ↔ Sorted l := sortedB_iff l
 
 end HcipyVerif.Scheduler
